@@ -48,7 +48,7 @@ func getParser(p *Prog) *parserInfo {
 			// refill = the method that invokes reader.Read
 			for _, cl := range Calls(fn) {
 				cc := cl.Common()
-				if cc.IsInvoke() && cc.Method.Name() == "Read" && isFieldOrg(p.Origin(cc.Value), pi.fReader) {
+				if cc.IsInvoke() && cn(cc.Method) == "Read" && isFieldOrg(p.Origin(cc.Value), pi.fReader) {
 					pi.refill = fn
 				}
 			}
@@ -166,7 +166,7 @@ func c12R2(c *Ctx) {
 						} else {
 							c.OK(name, pos, "read-only sink "+n)
 						}
-					case cc.IsInvoke() && cc.Method.Name() == "Read" && fn == pi.refill:
+					case cc.IsInvoke() && cn(cc.Method) == "Read" && fn == pi.refill:
 						c.OK(name, pos, "reader destination inside the refill function")
 					case n == "bytes.NewBuffer" || n == "bytes.NewReader" || n == "string":
 						c.Violation(name, pos, "alias-newbuffer", n+" wraps the parse buffer without copying: the frame handed out aliases memory the next read overwrites")
@@ -206,7 +206,7 @@ func c12R3(c *Ctx) {
 	var read ssa.CallInstruction
 	for _, cl := range Calls(fn) {
 		cc := cl.Common()
-		if cc.IsInvoke() && cc.Method.Name() == "Read" {
+		if cc.IsInvoke() && cn(cc.Method) == "Read" {
 			read = cl
 		}
 	}
@@ -269,7 +269,7 @@ func c12R4(c *Ctx) {
 				why = x.String()
 				return true
 			}
-			if x.Kind == "call" && x.Method != nil && x.Method.Name() == "Read" && x.Res == 0 {
+			if x.Kind == "call" && x.Method != nil && cn(x.Method) == "Read" && x.Res == 0 {
 				why = "the read count"
 				return true
 			}
